@@ -254,6 +254,12 @@ func newC03env() (*c03env, error) {
 	e.file6 = f6
 	e.pool = append(e.pool, f6)
 	e.shape = append(e.shape, "*os.File")
+	// W7: a destination whose Write always fails: it is still handed every record it is selected for, and so is
+	// every writer registered after it in the same list
+	w7 := mon.New(e.log, "W7", mon.ShapePlain)
+	w7.Core().Fail = func(int, []byte) (bool, int) { return true, 0 }
+	e.pool = append(e.pool, w7)
+	e.shape = append(e.shape, "always-failing")
 	var err error
 	e.fds, err = captureFds()
 	if err != nil {
@@ -396,6 +402,9 @@ func (e *c03env) probeAll(lg *slog.Entry, model *wmodel, rp func(k string, n int
 		got := map[string]int{}
 		for _, ev := range evs {
 			if ev.Kind == mon.EvWrite {
+				if bytes.Contains(ev.Data, []byte("slog print log failed")) {
+					continue // the library's diagnostic about the failing destination (C13's subject)
+				}
 				if !bytes.Contains(ev.Data, []byte(id)) {
 					out = append(out, c03viol{"foreign-payload", fmt.Sprintf("writer %s received bytes that are not this probe: %s", ev.W, q(clip(string(ev.Data), 200)))})
 					continue
@@ -446,6 +455,9 @@ func (e *c03env) probeAll(lg *slog.Entry, model *wmodel, rp func(k string, n int
 				l := ev.Lvl
 				lastSet[ev.W] = &l
 			case mon.EvWrite:
+				if bytes.Contains(ev.Data, []byte("slog print log failed")) {
+					continue // the diagnostic record about a failing destination has its own severity
+				}
 				if e.lvlS[ev.W] {
 					rp("levelsettable_writes", 1)
 					if ls := lastSet[ev.W]; ls == nil {
@@ -536,7 +548,7 @@ func c03alphabet(full bool) []wop {
 	ws := []int{0, 1, 2, 6}
 	lvls := []slog.Level{slog.InfoLevel, slog.ErrorLevel}
 	if full {
-		ws = []int{0, 1, 2, 3, 4, 5, 6}
+		ws = []int{0, 1, 2, 3, 4, 5, 6, 7}
 		lvls = []slog.Level{slog.InfoLevel, slog.ErrorLevel, slog.DebugLevel, slog.AlwaysLevel, slog.FailLevel, lvlCustErr, lvlCustPlain, slog.Level(88)}
 	}
 	for _, n := range []string{"SetWriter", "AddWriter", "RemoveWriter", "SetErrorWriter", "AddErrorWriter", "RemoveErrorWriter"} {
